@@ -5,6 +5,8 @@ package main
 // c08.go        generic engine: one sigma protocol (any X/W/A/S/Z) through the sigma level, the
 //               simulator, the extractor, the three non-interactive compilers, the interactive ZK
 //               compiler, context variations and proof-byte mutations.
+// c08_adv.go    adversarial provers: component-count attacks, witness-free forgeries (simulator,
+//               grinding), statement substitution, cross-protocol replay — for every compiler.
 // c08_curve.go  the protocol instances over elliptic-curve groups and their line encodings.
 // c08_int.go    integer-group instances (Paillier n-th root …).
 
@@ -120,6 +122,17 @@ type sigCase[X sigma.Statement, W sigma.Witness, A sigma.Statement, S sigma.Stat
 	fischlinQuick bool
 	// sigmaOnly: in the quick tier only the sigma level (transcripts, simulator) is run
 	sigmaOnly bool
+	// ---- adversarial-prover family (c08_adv.go)
+	// advFull: simulator calls and responses are cheap (a few scalar multiplications): the whole
+	// adversarial Fischlin family also runs in the quick tier
+	advFull bool
+	// xVariants: statements that differ from x in exactly one component / in the order of components
+	xVariants func(x X) []namedX[X]
+	// resized: the same protocol (same name, same Go types) configured for another number of
+	// components, with a valid statement/witness pair of that size
+	resized []resized[X, W, A, S, Z]
+	// foreign: verifiers of other protocols whose proof encoding has the same shape
+	foreign []foreignVerifier
 }
 
 func eHex(e []byte) string { return hexNat(new(big.Int).SetBytes(e)) }
@@ -171,8 +184,10 @@ func runSigma[X sigma.Statement, W sigma.Witness, A sigma.Statement, S sigma.Sta
 	}
 	t4 := time.Now()
 	zkLevel(c, r, cs)
+	t5 := time.Now()
+	advLevel(c, r, cs)
 	if os.Getenv("C08_TIMING") != "" {
-		fmt.Fprintf(os.Stderr, "%s sigma=%v fs=%v fischlin=%v randfischlin=%v zk=%v\n", cs.tag, t1.Sub(t0), t2.Sub(t1), t3.Sub(t2), t4.Sub(t3), time.Since(t4))
+		fmt.Fprintf(os.Stderr, "%s sigma=%v fs=%v fischlin=%v randfischlin=%v zk=%v adv=%v\n", cs.tag, t1.Sub(t0), t2.Sub(t1), t3.Sub(t2), t4.Sub(t3), t5.Sub(t4), time.Since(t5))
 	}
 }
 
